@@ -147,6 +147,11 @@ theorem judge_rejects_dead_server (ops : List Nat) (sr : Bool) (base got : List 
     judge ops sr base got 0 false ended ≠ .ok := by
   simp [judge]
 
+/-- a connection the server never ends after the client finished is always a violation -/
+theorem judge_rejects_unclosed_end (ops : List Nat) (sr : Bool) (base got : List Tok) (leak : Nat) (alive ended : Bool) :
+    judgeEnd true ops sr base got leak alive ended ≠ .ok := by
+  simp [judgeEnd]
+
 /-- a hang is never acceptable -/
 theorem timeout_never_allowed (op : Nat) (base : Tok) (b : Bytes) (ops : List Nat) (all : List Tok) :
     allowedDeviation op base (.timeout b) ops all = false := rfl
